@@ -449,11 +449,14 @@ pub fn run(ctx: &mut Ctx) {
     crate::checks::c02::label_oracle_into(ctx);
     // (d) the same faults through the language server: the published range must be the position of the label
     crate::checks::c02::lsp_range_oracle_into(ctx);
+    // description blocks: tokens and label positions are those of the text after a reference blanking
+    crate::oscat::run_into(ctx, if ctx.tier.thorough() { 7 } else { 6 });
 }
 
 pub fn replay(case: &Value) -> Result<String, String> {
     let text = case["text"].as_str().ok_or("text")?;
     match case["mode"].as_str() {
+        Some("description-blocks") => crate::oscat::replay(text),
         Some("tiling") => {
             let mut p = tiling_problems(text);
             let (_, diags) = front::tokenize(text, "doc.st");
